@@ -68,7 +68,8 @@ if [ "$(git -C "$lab/repo" rev-parse HEAD)" != "$head" ]; then
   git -C "$lab/repo" checkout -q --detach "$head" || { echo "mutlab: cannot move lab to $head" >&2; exit 97; }
 fi
 # current /verif sources (not build output, not evidence history)
-rsync -a --delete --exclude .build --exclude .git --exclude evidence --exclude replays /verif/ "$lab/verif/" || exit 97
+rsync -a --delete --exclude .build --exclude .git --exclude evidence --exclude replays --exclude 'target' --exclude '__pycache__' /verif/ "$lab/verif/"
+rs=$?; [ $rs -eq 0 ] || [ $rs -eq 24 ] || { echo "mutlab: rsync failed ($rs)" >&2; exit 97; }
 mkdir -p "$lab/verif/evidence" "$lab/verif/replays"
 
 for p in "${patches[@]}"; do
